@@ -345,12 +345,13 @@ func (c *client) reconnectDial() error {
 		Metadata:  c.connectMetadata,
 	}}, RequestTimeout(c.dialOptions.AuthTimeout))
 
-	if err != nil {
-		return errors.Wrap(err, "reconnect request")
+	// session is rejected, auth again (Do surfaces a non-zero status as *protocol.LBError)
+	if e, ok := err.(*protocol.LBError); ok && e.Status == protocol.StatusUnauthenticated {
+		return c.auth()
 	}
 
-	if res.StatusCode() == protocol.StatusUnauthenticated {
-		return c.auth()
+	if err != nil {
+		return errors.Wrap(err, "reconnect request")
 	}
 
 	var info control.AuthResponse
